@@ -28,6 +28,7 @@ type op struct {
 	Crowd  int    // nav, logout: unrelated cookies sent in front on this request only (path-scoped ones)
 	Method string // nav: HTTP method ("" = GET)
 	Scheme string // attacker requests: scheme reported by the proxy ("" = https)
+	Host   string // attacker requests: Host header ("" = the application's host)
 }
 
 func (o op) String() string {
@@ -632,6 +633,9 @@ func (h *H) attack(o *op) {
 	name := h.w.CookieName()
 	mk := func(cookie string) sim.Req {
 		r := sim.Req{Scheme: "https", Host: h.w.AppHost, Path: tgt, Headers: map[string]string{}}
+		if o.Host != "" {
+			r.Host = o.Host // a sibling or look-alike of the application's host: what is answered is as protected as ever
+		}
 		switch o.Scheme {
 		case "":
 		case "none":
@@ -875,6 +879,7 @@ func genOps(c *sim.Case, p opProfile, maxOps int) []op {
 			o.K = "attack"
 			o.Att = p.attacks[sim.Pick(c, "att", len(p.attacks))]
 			o.Scheme = []string{"", "", "", "http", "HTTPS", "none"}[sim.Pick(c, "att.scheme", 6)]
+			o.Host = []string{"", "", "", "", "www.app.test", "login.corp.app.test", "APP.TEST", "app.test.", "app.test:8443", "other.test"}[sim.Pick(c, "att.host", 10)]
 			o.B2 = sim.Pick(c, "b2", p.browsers)
 			switch o.Att {
 			case "unknown-id", "chosen-id":
